@@ -57,4 +57,12 @@ theorem missed_deep_removal_witness :
 theorem missed_remove_on_transfer_witness :
     (alias (run Heap.empty [.newRoot 1, .newRoot 2, .create, .insert 1 3]) 2 3).healthy = false := by decide
 
+/-- a copy that keeps the pointer of the value it was copied from (`alias`) and is then moved on with
+`remove := true` (remove + deep removal of what it points to) frees the original's slab: the parent is
+left with a dangling pointer (a cached storable handed over to the copy of an optional) -/
+theorem stale_pointer_copy_witness :
+    let h := run Heap.empty [.newRoot 1, .create, .insert 1 2, .create, .insert 2 3]
+    let h' := destroy (removeChild (alias h 2 3) 2 3) 3
+    h.healthy = true ∧ h'.healthy = false ∧ h'.children 2 = some [3] ∧ h'.children 3 = none := by decide
+
 end Verif.Properties.C23
